@@ -96,7 +96,7 @@ def parse_trace(path):
     return evs
 
 
-def run_scenarios(binary, scenarios, tag, timeout=120, prefix=None, env_extra=None, per_scn_timeout=None, before_round=None):
+def run_scenarios(binary, scenarios, tag, timeout=120, prefix=None, env_extra=None, per_scn_timeout=None, before_round=None, max_failures=None):
     """Run scenarios through `jbkdrive run`. Returns {scn id: {"events": [...], "status": ...}}.
     status: ok | crash:<rc> | timeout.  After a crash or timeout the remaining scenarios are
     run in a fresh process (the culprit is the scenario that began and did not end)."""
@@ -109,7 +109,12 @@ def run_scenarios(binary, scenarios, tag, timeout=120, prefix=None, env_extra=No
     env["RUST_BACKTRACE"] = "0"
     if env_extra:
         env.update(env_extra)
+    failures = 0
     while todo:
+        if max_failures is not None and failures >= max_failures:
+            for s_ in todo:
+                res.setdefault(s_["id"], {"events": [], "status": "skipped"})
+            break
         rnd += 1
         if before_round is not None:
             before_round()
@@ -162,6 +167,7 @@ def run_scenarios(binary, scenarios, tag, timeout=120, prefix=None, env_extra=No
                 res.setdefault(cur, {"events": [], "status": "ok"})
             res[cur]["status"] = status
             res[cur]["stderr"] = stderr_tail
+            failures += 1
             k = ids.index(cur)
             todo = todo[k + 1:]
         for p_ in (sf, tf):
